@@ -23,13 +23,13 @@ func b01(x bool) string {
 // ---------------------------------------------------------------------------------------------
 
 type amoCfg struct {
-	lifetime           time.Duration
-	stallAt            int
-	stall              time.Duration
-	fault              string // "", dropAfter, dropBefore, silent, half
-	faultAt            int
-	goroutines, calls  int
-	multi              bool
+	lifetime          time.Duration
+	stallAt           int
+	stall             time.Duration
+	fault             string // "", dropAfter, dropBefore, silent, half
+	faultAt           int
+	goroutines, calls int
+	multi             bool
 }
 
 func runAtMostOnce(c *Ctx) {
@@ -146,7 +146,73 @@ func amoEpisode(c *Ctx, n int, cfg amoCfg) {
 // C04: broken connections and Close never leave calls hanging
 // ---------------------------------------------------------------------------------------------
 
+// closeDuringDial: a re-dial is in flight while Close runs; afterwards every call must fail with ErrClosing
+// and the late connection must not serve anything.
+func closeDuringDial(c *Ctx, n int, always bool) {
+	srv := NewServer(uint64(n) + 900)
+	client, err := rueidis.NewClient(rueidis.ClientOption{
+		InitAddress: []string{"tagsrv:6379"}, DialCtxFn: srv.Dial, ForceSingleClient: true, DisableRetry: true, DisableCache: true,
+		PipelineMultiplex: -1, AlwaysPipelining: always,
+	})
+	if err != nil {
+		c.Fail("broken:newclient", "close-during-dial", err.Error())
+		return
+	}
+	ctx := context.Background()
+	client.Do(ctx, client.B().Echo().Message("warm").Build())
+	srv.mu.Lock()
+	srv.DialGate, srv.DialWaiting = make(chan struct{}), make(chan struct{}, 4)
+	gate, waiting := srv.DialGate, srv.DialWaiting
+	srv.mu.Unlock()
+	srv.CloseAll() // the wire breaks; the next call re-dials and parks inside the dial
+	inflight := make(chan error, 1)
+	go func() {
+		var e error
+		for try := 0; try < 6; try++ { // the first calls may still hit the broken wire
+			e = client.Do(ctx, client.B().Echo().Message(fmt.Sprintf("mid%d_%d", n, try)).Build()).Error()
+			if e == nil {
+				break
+			}
+		}
+		inflight <- e
+	}()
+	parked := false
+	select {
+	case <-waiting:
+		parked = true
+	case <-time.After(2 * time.Second):
+	}
+	client.Close()
+	close(gate)
+	select {
+	case <-inflight:
+	case <-time.After(5 * time.Second):
+		c.Fail("broken:call-hung:close-during-dial", "close-during-dial", "the call whose dial was in flight during Close never returned")
+	}
+	time.Sleep(10 * time.Millisecond)
+	before := len(srv.Events())
+	lr := client.Do(ctx, client.B().Echo().Message(fmt.Sprintf("afterclose%d", n)).Build())
+	later := "other:" + fmt.Sprint(lr.Error())
+	if errors.Is(lr.Error(), rueidis.ErrClosing) {
+		later = "closing"
+	}
+	served := false
+	for _, ev := range srv.Events()[before:] {
+		if ev.Kind == "c" && len(ev.Argv) > 1 && strings.HasPrefix(ev.Argv[1], "afterclose") {
+			served = true
+		}
+	}
+	op := fmt.Sprintf("!later clientclose %s", strings.SplitN(later, ":", 2)[0])
+	c.Hit(fmt.Sprintf("broken:close-during-dial:parked=%v:%s", parked, strings.SplitN(later, ":", 2)[0]))
+	if later != "closing" || served {
+		c.Fail("broken:call-after-close-served:dial-in-flight-during-close", op, fmt.Sprintf("a call issued after Close returned %q (served by the server: %v): the connection dialled during Close replaced the closed wire", later, served))
+	}
+	c.Emit(op, "ok", true)
+}
+
 func runBroken(c *Ctx) {
+	closeDuringDial(c, 0, false)
+	closeDuringDial(c, 1, true)
 	kinds := []string{"do", "multi", "cache", "multicache", "sub", "block", "write"}
 	faults := []string{"dropBefore", "dropAfter", "half", "closeall", "clientclose"}
 	n := 0
@@ -317,13 +383,12 @@ func brokenEpisode(c *Ctx, n int, kinds []string, fault string, occ int, always 
 	c.Emit(op, "ok", true)
 }
 
-
 // ---------------------------------------------------------------------------------------------
 // C05: calls honour context deadlines and cancellation
 // ---------------------------------------------------------------------------------------------
 
 func runDeadline(c *Ctx) {
-	kinds := []string{"do", "multi", "cache", "multicache", "block", "cachewait", "poolwait", "sub"}
+	kinds := []string{"do", "multi", "cache", "multicache", "block", "cachewait", "poolwait", "sub", "slowsub"}
 	n := 0
 	for _, always := range []bool{false, true} {
 		for _, kind := range kinds {
@@ -354,7 +419,8 @@ func deadlineEpisode(c *Ctx, n int, kind, mode string, always bool) {
 		c.Fail("deadline:newclient", kind, err.Error())
 		return
 	}
-	defer func() { close(block); client.Close() }()
+	slowRelease := make(chan struct{})
+	defer func() { close(block); close(slowRelease); client.Close() }()
 	const limit = 60 * time.Millisecond
 	tag := fmt.Sprintf("s%d", n)
 	// preconditions for the waiting-on-others kinds
@@ -398,8 +464,18 @@ func deadlineEpisode(c *Ctx, n int, kind, mode string, always bool) {
 			e = client.Do(ctx, client.B().Blpop().Key(tag).Timeout(0).Build()).Error()
 		case "sub":
 			e = client.Receive(ctx, client.B().Subscribe().Channel(tag).Build(), func(rueidis.PubSubMessage) {})
+		case "slowsub":
+			// a slow subscriber (4 ms per message) while the server keeps publishing: the per-subscription buffer is
+			// full and the connection's reader is blocked in Publish when the context ends
+			e = client.Receive(ctx, client.B().Subscribe().Channel(tag).Build(), func(rueidis.PubSubMessage) { time.Sleep(4 * time.Millisecond) })
 		}
 	}()
+	if kind == "slowsub" && mode != "done" {
+		go func() {
+			time.Sleep(10 * time.Millisecond)
+			srv.Publish(tag, 64)
+		}()
+	}
 	returned := true
 	select {
 	case <-finished:
@@ -407,6 +483,15 @@ func deadlineEpisode(c *Ctx, n int, kind, mode string, always bool) {
 		returned = false
 	}
 	took := time.Since(start)
+	if kind == "slowsub" && returned {
+		// the shared connection must still serve other callers after the subscriber gave up
+		octx, ocancel := context.WithTimeout(context.Background(), 3*time.Second)
+		oerr := client.Do(octx, client.B().Echo().Message("after"+tag[1:]).Build()).Error()
+		ocancel()
+		if oerr != nil {
+			c.Fail("deadline:connection-wedged-after-slow-subscriber", kind+" "+mode, "a command issued after the cancelled Receive failed: "+oerr.Error())
+		}
+	}
 	sent := 0
 	for _, ev := range srv.Events()[before:] {
 		if ev.Kind == "c" && len(ev.Argv) > 1 && strings.HasPrefix(ev.Argv[1], tag) && !strings.HasSuffix(ev.Argv[1], "hold") {
@@ -418,6 +503,9 @@ func deadlineEpisode(c *Ctx, n int, kind, mode string, always bool) {
 	ctxErr := returned && e != nil && (errors.Is(e, context.DeadlineExceeded) || errors.Is(e, context.Canceled))
 	op := fmt.Sprintf("!deadline %s %s %s %s %s %s", kind, mode, b01(returned), b01(prompt), b01(ctxErr), b01(sent == 0))
 	c.Hit(fmt.Sprintf("deadline:%s:%s", kind, mode))
+	if returned && !ctxErr {
+		c.Hit(fmt.Sprintf("deadline:%s:%s:err=%v", kind, mode, e))
+	}
 	if !returned {
 		c.Fail("deadline:hang:"+kind+":"+mode, op, fmt.Sprintf("call did not return %v after its context ended (always=%v)", took, always))
 	} else if !prompt {
